@@ -91,19 +91,35 @@ def snap(d, skip):
     return {k: (v if not isinstance(v, (dict, list)) else repr(v)) for k, v in d.items() if k not in skip}
 
 
-def run_mount(ctx, table, root, path):
+def build_mount_apps(table):
+    """one Subpaths tree per interface, built once per table and reused for every path (mount tables are long-lived objects)"""
     from baize import asgi, wsgi
+    hit = {}
+
+    def wrec(ids):
+        def app(environ, start_response):
+            hit["leaf"] = (ids, drivers.wsgi_text(environ.get("SCRIPT_NAME", "")), drivers.wsgi_text(environ.get("PATH_INFO", "")))
+            start_response("200 OK", [])
+            return [b"leaf"]
+        return app
+
+    def arec(ids):
+        async def app(scope, receive, send):
+            hit["leaf"] = (ids, scope.get("root_path", ""), scope["path"])
+            await send({"type": "http.response.start", "status": 200, "headers": []})
+            await send({"type": "http.response.body", "body": b"leaf"})
+        return app
+    return {"wsgi": build(wsgi, table, wrec), "asgi": build(asgi, table, arec), "hit": hit}
+
+
+def run_mount(ctx, table, root, path, apps=None):
+    apps = apps or build_mount_apps(table)
+    hit = apps["hit"]
     nt = False
     for iface in ("wsgi", "asgi"):
-        hit = {}
+        hit.clear()
+        app = apps[iface]
         if iface == "wsgi":
-            def rec(ids):
-                def app(environ, start_response):
-                    hit["leaf"] = (ids, drivers.wsgi_text(environ.get("SCRIPT_NAME", "")), drivers.wsgi_text(environ.get("PATH_INFO", "")))
-                    start_response("200 OK", [])
-                    return [b"leaf"]
-                return app
-            app = build(wsgi, table, rec)
             env = drivers.to_environ(drivers.Req(path=path.encode("utf-8"), root=root.encode("utf-8")))
             root_seen, path_seen = drivers.wsgi_text(env["SCRIPT_NAME"]), drivers.wsgi_text(env["PATH_INFO"])
             before = snap(env, ("SCRIPT_NAME", "PATH_INFO"))
@@ -112,13 +128,6 @@ def run_mount(ctx, table, root, path):
             after = snap(env, ("SCRIPT_NAME", "PATH_INFO"))
             status, exc = res.code, res.exc
         else:
-            def rec(ids):
-                async def app(scope, receive, send):
-                    hit["leaf"] = (ids, scope.get("root_path", ""), scope["path"])
-                    await send({"type": "http.response.start", "status": 200, "headers": []})
-                    await send({"type": "http.response.body", "body": b"leaf"})
-                return app
-            app = build(asgi, table, rec)
             scope = drivers.to_scope(drivers.Req(path=path.encode("utf-8"), root=root.encode("utf-8")))
             root_seen, path_seen = scope["root_path"], scope["path"]
             before = snap(scope, ("root_path", "path"))
@@ -168,34 +177,41 @@ def run_mount(ctx, table, root, path):
 
 HOST_PATTERNS = [r"example\.com", r"(www\.)?example\.com", r".*\.example\.com", r"api\.example\.com", r"example", r".*", r"",
                  r"[a-z]+\.com", r"example\.com(:\d+)?", r"EXAMPLE\.COM", r"ex", r"com", r"e.*m", r"^example\.com$", r"static\..*"]
-HOSTS = ["example.com", "www.example.com", "api.example.com", "xexample.com", "example.comx", "example.com:8000", "", None, "EXAMPLE.COM",
+HOSTS = ["example.com", "www.example.com", "API.example.com", "Example.Com", "api.example.com", "xexample.com", "example.comx", "example.com:8000", "", None, "EXAMPLE.COM",
          "example", "static.example.com", "a.b.example.com", "example.com ", " example.com", "ex", "com", "api.example.com.evil.org"]
 
 
-def run_hosts(ctx, patterns, host):
+def build_host_apps(patterns):
     from baize import asgi, wsgi
+    hit = {}
+
+    def wrec(i):
+        def app(environ, start_response):
+            hit["i"] = i
+            start_response("200 OK", [])
+            return [b"h"]
+        return app
+
+    def arec(i):
+        async def app(scope, receive, send):
+            hit["i"] = i
+            await send({"type": "http.response.start", "status": 200, "headers": []})
+            await send({"type": "http.response.body", "body": b"h"})
+        return app
+    return {"wsgi": wsgi.Hosts(*[(p, wrec(i)) for i, p in enumerate(patterns)]), "asgi": asgi.Hosts(*[(p, arec(i)) for i, p in enumerate(patterns)]), "hit": hit}
+
+
+def run_hosts(ctx, patterns, host, apps=None):
+    apps = apps or build_host_apps(patterns)
+    hit = apps["hit"]
     for iface in ("wsgi", "asgi"):
-        hit = {}
+        hit.clear()
         headers = [] if host is None else [("Host", host)]
         if iface == "wsgi":
-            def rec(i):
-                def app(environ, start_response):
-                    hit["i"] = i
-                    start_response("200 OK", [])
-                    return [b"h"]
-                return app
-            app = wsgi.Hosts(*[(p, rec(i)) for i, p in enumerate(patterns)])
-            res = drivers.run_wsgi(app, drivers.to_environ(drivers.Req(headers=headers)))
+            res = drivers.run_wsgi(apps["wsgi"], drivers.to_environ(drivers.Req(headers=headers)))
             status, exc = res.code, res.exc
         else:
-            def rec(i):
-                async def app(scope, receive, send):
-                    hit["i"] = i
-                    await send({"type": "http.response.start", "status": 200, "headers": []})
-                    await send({"type": "http.response.body", "body": b"h"})
-                return app
-            app = asgi.Hosts(*[(p, rec(i)) for i, p in enumerate(patterns)])
-            res = drivers.run_asgi(app, drivers.to_scope(drivers.Req(headers=headers)))
+            res = drivers.run_asgi(apps["asgi"], drivers.to_scope(drivers.Req(headers=headers)))
             status, exc = res.status, res.exc
         ctx.mon("host-selection")
         case = {"patterns": patterns, "host": host, "iface": iface}
@@ -233,17 +249,22 @@ def run(ctx):
         full = t % 40 == 0
         paths = PATHS if full else rng.sample(PATHS, 24)
         ntriv = has_prefix_pair(table) or table_depth(table) >= 2
+        apps = build_mount_apps(table)
+        first = [p for p, _ in table if p]
         for path in paths:
-            root = rng.choice(roots)
-            nt = run_mount(ctx, table, root, path)
+            root = rng.choice(roots + ([first[0]] if first else []))  # also a root path equal to one of the table's own prefixes
+            nt = run_mount(ctx, table, root, path, apps)
             ctx.case((repr(table), root, path) if (nt or ntriv) else None)
         if t < 2:
             ctx.sample("nested-mount", {"table": table, "root": root, "path": path, "model": model_walk(table, root, path)})
     ctx.extra["exhaustive_path_list"] = len(PATHS)
     for t in range(ctx.scale(1500, 40_000)):
         patterns = rng.sample(HOST_PATTERNS, rng.randrange(1, 5))
-        for host in rng.sample(HOSTS, 6):
-            run_hosts(ctx, patterns, host)
+        apps = build_host_apps(patterns)  # one Hosts object serves the whole sequence (answers must not depend on earlier requests)
+        seq = rng.sample(HOSTS, 6)
+        seq += [h.swapcase() for h in seq[:3] if h] + seq[:2]
+        for host in seq:
+            run_hosts(ctx, patterns, host, apps)
             ctx.case(("hosts", tuple(patterns), host))
         if t < 1:
             ctx.sample("host-table", {"patterns": patterns, "host": host})
